@@ -137,6 +137,7 @@ T_C_OVER = "compress_float_int32_overflow"     # S09: non-finite or max|x|*10^de
 T_C_UNPACK = "compress_float_factor_unpackable"  # decimals >= 20: factor 10**d does not fit msgpack / float32
 T_C_HANG = "compress_float_nonterminating"     # decimals needed > what np.round can do (10**d overflows)
 T_C_EMPTY = "compress_empty_array"
+T_MASKVAL = "masked_value_truncated"             # as_array(str, masked_value=longer than the stored strings)
 T_C_PACK32 = "compress_packs_value_outside_int32"   # long column with a value >= 2**31: the size heuristic admits integer packing
 T_BE = "bigendian_64bit_or_float16_input"      # TypeCode.from_dtype compares dtype == np.int64 byte-order sensitively
 
@@ -1540,6 +1541,13 @@ def judge_column(ctx, oracle, col, x, specs, mask, what, tol=None):
         if view != exp:
             i = first_diff(view, exp)
             ctx.fail(oracle, "%s: as_array(str)[%d] = %r, expected %r" % (what, i, view[i] if i < len(view) else None, exp[i] if i < len(exp) else None))
+        if mask is not None:
+            for mv in ("", "N/A", "0"):
+                view2 = col.as_array(str, masked_value=mv).tolist()
+                exp2 = [mv if int(m_) != 0 else str(v_) for v_, m_ in zip(x.tolist(), mask)]
+                if view2 != exp2:
+                    i = first_diff(view2, exp2)
+                    ctx.fail(oracle, "%s: as_array(str, masked_value=%r)[%d] = %r, expected %r" % (what, mv, i, view2[i:i + 1], exp2[i:i + 1]))
     # the masked view in the column's own type: masked rows read `masked_value`, and asking for it leaves the column
     # itself (its data, a later view, a later serialisation) as it was
     if mask is not None and arr.dtype.kind in "iuf" and len(arr) > 0:
@@ -2049,6 +2057,18 @@ def _probe_compress_pack32(ctx):
         settle(ctx, st, val, True, what, lambda oracle: judge_ints(ctx, "compress_exact", val[1], x, what))
 
 
+def _probe_masked_value(ctx):
+    """String view of a masked column with a masked_value longer than every stored string (both column classes)."""
+    for cls in (pdbx.BinaryCIFColumn, pdbx.CIFColumn):
+        col = cls(np.array(["a", "bc", "d"]), np.array([0, 2, 1], dtype=np.uint8))
+        ctx.log("as_array", cls.__name__, {"masked_value": "N/A"})
+        ctx.op("probe_masked_value")
+        ctx.oracle("column_roundtrip")
+        got = col.as_array(str, masked_value="N/A").tolist()
+        if got != ["a", "N/A", "N/A"]:
+            ctx.fail("column_roundtrip", "%s(['a','bc','d'], mask [0,2,1]).as_array(str, masked_value='N/A') = %r" % (cls.__name__, got))
+
+
 def _probe_bigendian(ctx):
     """Big-endian int64 / uint64 / float16 arrays with representable values."""
     for dt, vals in ((">i8", [5, 1, -3]), (">u8", [5, 1]), (">f2", [1.5, 2.25])):
@@ -2080,4 +2100,5 @@ PROBES = {
     T_C_HANG: _probe_compress_hang,
     T_C_EMPTY: _probe_compress_empty,
     T_C_PACK32: _probe_compress_pack32,
+    T_MASKVAL: _probe_masked_value,
 }
